@@ -36,3 +36,70 @@ package metrics
 //@     ghostset ghost(0, "walPending") = 0
 //@   ensures [replayed-datapoints-are-flushed] ghost(0, "walPending") == 0
 //@ end
+
+// C16 (a datapoint is stored at the instant its protocol timestamp denotes):
+// OpenTSDB put, timestamp given as a JSON integer or as a numeric string in
+// seconds or milliseconds.  The stored uint32 second is the value itself when
+// it is in seconds and value/1000 when it is in milliseconds, the division
+// being done on the full 64-bit value (a millisecond epoch does not fit 32
+// bits).  The closure is the per-key callback of jsonparser.ObjectEach; `ts` is
+// a result variable of the enclosing function captured by reference.
+//@ ghostdecl otsInt int64
+//@ ghostdecl otsIntOk int
+//@ ghostdecl otsStr int64
+//@ ghostdecl otsStrOk int
+//@ spec otsdbSec(t int64) uint32 = ite(uint64(t) >= 99999999999, uint32(t / 1000), uint32(t))
+//@ func ExtractOTSDBPayload$1
+//@   props C16
+//@   mode real
+//@   note the float timestamp path shares this closure; its float64 arithmetic is treated as exact real arithmetic (mode real) so that the integer paths, which are the ones claimed, are decidable; nothing is claimed about the float path
+//@   privatecaptures
+//@   ghostinit ghost(0, "otsIntOk") == 0 && ghost(0, "otsStrOk") == 0
+//@   site callret jp.ParseInt #1:
+//@     ghostset ghost(0, "otsInt") = result0
+//@     ghostset ghost(0, "otsIntOk") = ite(result1 == nil, 1, 0)
+//@   site callret strconv.ParseInt #1:
+//@     ghostset ghost(0, "otsStr") = result0
+//@     ghostset ghost(0, "otsStrOk") = ite(result1 == nil, 1, 0)
+//@   ensures [integer-timestamp-in-seconds] implies(ghost(0, "otsIntOk") == 1 && result == nil, *ts == otsdbSec(ghost(0, "otsInt")))
+//@   ensures [numeric-string-timestamp-in-seconds] implies(ghost(0, "otsStrOk") == 1 && result == nil, *ts == otsdbSec(ghost(0, "otsStr")))
+//@ end
+
+// C08 (a stored series is found again through its tags): a tag-key file holds
+// one chunk per metric; the metadata records each chunk's start and end offset.
+// The end offset is start + id where id counts the bytes written for the
+// metric: id must equal the number of bytes actually handed to the chunk
+// buffer (tagBytes, a ghost counter advanced by the length of every Write /
+// WriteString argument), for every tag value, escaped or not.
+//@ ghostdecl tagBytes uint32
+//@ func (*TagTree).encodeTagsTree
+//@   props C08
+//@   assumecalleerequires
+//@   note under contract for the offset bookkeeping only; that the metadata buffer (sized from tree.numMetrics) has room for every metric of tree.rawValues is assumed at the in-place codec calls
+//@   ghostinit ghost(0, "tagBytes") == 0
+//@   loop 1:
+//@     invariant [counter-restarts-per-metric] ghost(0, "tagBytes") == 0
+//@   loop 2:
+//@     invariant [offset-counter-equals-bytes-written] id == ghost(0, "tagBytes")
+//@   loop 3:
+//@     invariant [offset-counter-equals-bytes-written] id == ghost(0, "tagBytes")
+//@   site call tagBuf.Write #1:
+//@     ghostset ghost(0, "tagBytes") = ghost(0, "tagBytes") + uint32(len(arg1))
+//@   site call tagBuf.Write #2:
+//@     ghostset ghost(0, "tagBytes") = ghost(0, "tagBytes") + uint32(len(arg1))
+//@   site call tagBuf.Write #3:
+//@     ghostset ghost(0, "tagBytes") = ghost(0, "tagBytes") + uint32(len(arg1))
+//@   site call tagBuf.WriteString #1:
+//@     ghostset ghost(0, "tagBytes") = ghost(0, "tagBytes") + uint32(len(arg1))
+//@   site call tagBuf.Write #4:
+//@     ghostset ghost(0, "tagBytes") = ghost(0, "tagBytes") + uint32(len(arg1))
+//@   site call tagBuf.Write #5:
+//@     ghostset ghost(0, "tagBytes") = ghost(0, "tagBytes") + uint32(len(arg1))
+//@   site call tagBuf.Write #6:
+//@     ghostset ghost(0, "tagBytes") = ghost(0, "tagBytes") + uint32(len(arg1))
+//@   site call tagBuf.Write #7:
+//@     ghostset ghost(0, "tagBytes") = ghost(0, "tagBytes") + uint32(len(arg1))
+//@   site call utils.Uint32ToBytesLittleEndianInplace #3:
+//@     assert [end-offset-is-start-plus-bytes-written] arg0 == startOff + ghost(0, "tagBytes")
+//@     ghostset ghost(0, "tagBytes") = 0
+//@ end
